@@ -4,6 +4,7 @@ import (
 	"fmt"
 	"go/token"
 	"go/types"
+	"sort"
 	"strings"
 
 	"golang.org/x/tools/go/ssa"
@@ -331,6 +332,9 @@ func (e *FnExec) doReturn(st *State, r *ssa.Return) {
 		e.setMem(st, it.class, it.sort, Store(e.getMem(st, it.class, it.sort), it.loc, v))
 	}
 	env := e.specEnv(st, token.NoPos)
+	// parameters keep their entry values (bound above); the function's local variables in scope at
+	// this return can be named too and have their values at the return
+	env.scopePos = r.Pos()
 	res := e.fn.Signature.Results()
 	for i, rv := range r.Results {
 		v := e.val(st, rv)
@@ -498,8 +502,7 @@ func (e *FnExec) call(st *State, instr ssa.Instruction, c *ssa.CallCommon, res s
 			}
 		}
 		if name != "" {
-			e.guardN[name]++
-			gk := fmt.Sprintf("%s#%d", name, e.guardN[name])
+			gk := fmt.Sprintf("%s#%d", name, e.guardOrdinal(name, instr))
 			if g, ok := e.con.Guards[gk]; ok {
 				env := e.specEnv(st, instr.Pos())
 				env.block = instr.Block()
@@ -616,8 +619,7 @@ func (e *FnExec) call(st *State, instr ssa.Instruction, c *ssa.CallCommon, res s
 	}
 	if e.con != nil && e.con.Guards != nil {
 		name := lastName(key)
-		e.guardN[name]++
-		gk := fmt.Sprintf("%s#%d", name, e.guardN[name])
+		gk := fmt.Sprintf("%s#%d", name, e.guardOrdinal(name, instr))
 		if g, ok := e.con.Guards[gk]; ok {
 			env := e.specEnv(st, instr.Pos())
 			env.block = instr.Block()
@@ -709,6 +711,59 @@ func (e *FnExec) qualifiedCallName(c *ssa.CallCommon, name string) string {
 		}
 	}
 	return ""
+}
+
+// guardName: the name under which a call site can be guarded (guardcall <name>#<n>): the callee's
+// last name, or the name of the function-valued variable it is called through.
+func (e *FnExec) guardName(c *ssa.CallCommon) string {
+	if _, ok := c.Value.(*ssa.Builtin); ok {
+		return ""
+	}
+	key, _, _ := e.calleeKey(c)
+	if key != "" {
+		return lastName(key)
+	}
+	switch v := c.Value.(type) {
+	case *ssa.Parameter:
+		return v.Name()
+	case *ssa.FreeVar:
+		return v.Name()
+	case *ssa.UnOp:
+		if fv, ok := v.X.(*ssa.FreeVar); ok {
+			return fv.Name()
+		} else if a, ok := v.X.(*ssa.Alloc); ok {
+			return a.Comment
+		}
+	}
+	return ""
+}
+
+// guardOrdinal: call sites of one name are numbered in SOURCE order (position), 1-based.
+func (e *FnExec) guardOrdinal(name string, instr ssa.Instruction) int {
+	if e.guardOrd == nil {
+		e.guardOrd = map[ssa.Instruction]int{}
+		byName := map[string][]ssa.Instruction{}
+		for _, b := range e.fn.Blocks {
+			for _, ins := range b.Instrs {
+				if ci, ok := ins.(ssa.CallInstruction); ok {
+					if n := e.guardName(ci.Common()); n != "" {
+						byName[n] = append(byName[n], ins)
+					}
+				}
+			}
+		}
+		for _, l := range byName {
+			sort.SliceStable(l, func(i, j int) bool { return l[i].Pos() < l[j].Pos() })
+			for i, ins := range l {
+				e.guardOrd[ins] = i + 1
+			}
+		}
+	}
+	if n, ok := e.guardOrd[instr]; ok {
+		return n
+	}
+	e.guardN[name]++
+	return 1000 + e.guardN[name]
 }
 
 // staticCallResultType: the type of result k of some call in the unit named name
@@ -1078,7 +1133,11 @@ func (e *FnExec) applyContract(st *State, key string, con *Contract, sig *types.
 	for _, en := range con.Ensures {
 		g, err := post.boolExpr(en)
 		if err != nil {
-			if !strings.Contains(err.Error(), "@skip") {
+			// a verified callee may state a postcondition over its own local variables (values at
+			// its return): callers cannot see those, the clause is simply not available to them.
+			// (For a trusted callee an unknown identifier stays an error: nothing else checks it.)
+			localOnly := strings.Contains(err.Error(), "unknown identifier") && !con.Trusted && !con.NoVerify
+			if !strings.Contains(err.Error(), "@skip") && !localOnly {
 				e.errf("%v", err)
 			}
 			continue
